@@ -40,6 +40,7 @@ type Contract struct {
 	Lets       map[string]ast.Expr
 	LetOrder   []string
 	NoPanic    bool
+	DryRun     bool
 	Trusted    bool
 	Pure       bool
 	Invariants map[int][]Clause
@@ -273,6 +274,11 @@ func (cx *Contracts) finishClause(ct *Contract, kind string, cl *Clause, cf *Con
 	switch kind {
 	case "nopanic":
 		ct.NoPanic = true
+		if strings.HasPrefix(text, "dryrun") {
+			// proposal handlers: a panic site whose guard depends on the proposal content only and that lies on every
+			// nil-returning path is covered by the governance submission dry-run (DESIGN section 8 C15, tier ii)
+			ct.DryRun = true
+		}
 		return
 	case "trusted":
 		ct.Trusted = true
